@@ -1,7 +1,33 @@
 //! C09: bit operations. One case per line: `id op args...`, integers as [-]hex, counts as hex.
+//!
+//! Big-valued operations are answered by `big_op`; the same operation asked as `lay.<op>` also reports the
+//! layout of the result (`L<word bits>:<inline>:<len>:<capacity>`, from verif_hooks::repr_layout_*), so that the
+//! oracle can run the word-level models at the word size of THIS build and compare the Repr word for word.
 use dashu_base::{BitTest, PowerOfTwo};
+use dashu_int::verif_hooks as vh;
 use dashu_int::{IBig, UBig};
 use hlib::*;
+
+enum Out {
+    U(UBig),
+    I(IBig),
+    P(u128),
+}
+trait ToOut {
+    fn out(self) -> Out;
+}
+impl ToOut for UBig {
+    fn out(self) -> Out {
+        Out::U(self)
+    }
+}
+impl ToOut for IBig {
+    fn out(self) -> Out {
+        Out::I(self)
+    }
+}
+macro_rules! prim_out { ($($t:ty)*) => {$( impl ToOut for $t { fn out(self) -> Out { Out::P(self as u128) } } )*}; }
+prim_out!(u8 u16 u32 u64 u128 usize);
 
 fn prim_u(ty: &str, v: &UBig) -> Option<u128> {
     let x: u128 = u128::try_from(v).ok()?;
@@ -60,108 +86,192 @@ macro_rules! with_signed {
     };
 }
 
-fn run(op: &str, a: &[&str]) -> String {
-    match op {
-        // IBig x IBig
-        "and" => format!("ok {}", hi(&(ibig(a[0]) & ibig(a[1])))),
-        "or" => format!("ok {}", hi(&(ibig(a[0]) | ibig(a[1])))),
-        "xor" => format!("ok {}", hi(&(ibig(a[0]) ^ ibig(a[1])))),
-        "and_rr" => format!("ok {}", hi(&(&ibig(a[0]) & &ibig(a[1])))),
-        "or_rr" => format!("ok {}", hi(&(&ibig(a[0]) | &ibig(a[1])))),
-        "xor_rr" => format!("ok {}", hi(&(&ibig(a[0]) ^ &ibig(a[1])))),
-        "and_vr" => format!("ok {}", hi(&(ibig(a[0]) & &ibig(a[1])))),
-        "or_vr" => format!("ok {}", hi(&(ibig(a[0]) | &ibig(a[1])))),
-        "xor_vr" => format!("ok {}", hi(&(ibig(a[0]) ^ &ibig(a[1])))),
-        "and_rv" => format!("ok {}", hi(&(&ibig(a[0]) & ibig(a[1])))),
-        "or_rv" => format!("ok {}", hi(&(&ibig(a[0]) | ibig(a[1])))),
-        "xor_rv" => format!("ok {}", hi(&(&ibig(a[0]) ^ ibig(a[1])))),
-        "not" => format!("ok {}", hi(&!ibig(a[0]))),
-        "not_r" => format!("ok {}", hi(&!&ibig(a[0]))),
-        // UBig x UBig
-        "uand" => format!("ok {}", hu(&(ubig(a[0]) & ubig(a[1])))),
-        "uor" => format!("ok {}", hu(&(ubig(a[0]) | ubig(a[1])))),
-        "uxor" => format!("ok {}", hu(&(ubig(a[0]) ^ ubig(a[1])))),
-        "uand_rv" => format!("ok {}", hu(&(&ubig(a[0]) & ubig(a[1])))),
-        "uor_vr" => format!("ok {}", hu(&(ubig(a[0]) | &ubig(a[1])))),
-        "uxor_rr" => format!("ok {}", hu(&(&ubig(a[0]) ^ &ubig(a[1])))),
-        "uand_vr" => format!("ok {}", hu(&(ubig(a[0]) & &ubig(a[1])))),
-        "uand_rr" => format!("ok {}", hu(&(&ubig(a[0]) & &ubig(a[1])))),
-        "uor_rv" => format!("ok {}", hu(&(&ubig(a[0]) | ubig(a[1])))),
-        "uor_rr" => format!("ok {}", hu(&(&ubig(a[0]) | &ubig(a[1])))),
-        "uxor_vr" => format!("ok {}", hu(&(ubig(a[0]) ^ &ubig(a[1])))),
-        "uxor_rv" => format!("ok {}", hu(&(&ubig(a[0]) ^ ubig(a[1])))),
-        // mixed UBig / IBig
-        "and_ui" => format!("ok {}", hu(&(ubig(a[0]) & ibig(a[1])))),
-        "and_iu" => format!("ok {}", hu(&(ibig(a[0]) & ubig(a[1])))),
-        "or_ui" => format!("ok {}", hi(&(ubig(a[0]) | ibig(a[1])))),
-        "or_iu" => format!("ok {}", hi(&(ibig(a[0]) | ubig(a[1])))),
-        "xor_ui" => format!("ok {}", hi(&(ubig(a[0]) ^ ibig(a[1])))),
-        "xor_iu" => format!("ok {}", hi(&(ibig(a[0]) ^ ubig(a[1])))),
-        // primitives: `opp_<ty>`: big op prim, args: big prim(as hex of its value)
-        "uand_p" | "uor_p" | "uxor_p" => {
-            let ty = a[0];
-            let x = ubig(a[1]);
-            let pv = prim_u(ty, &ubig(a[2])).expect("primitive out of range");
-            with_unsigned!(ty, pv, |p| match op {
-                "uand_p" => format!("ok {:x}", x & p),
-                "uor_p" => format!("ok {}", hu(&(x | p))),
-                _ => format!("ok {}", hu(&(x ^ p))),
-            })
+/// the ten forms of `big OP primitive`: impl_binop_with_primitive (4), impl_commutative_binop_with_primitive (4),
+/// impl_binop_assign_with_primitive (2)
+macro_rules! prim_forms {
+    ($x:expr, $p:expr, $form:expr, $op:tt, $opa:tt) => {{
+        let x = $x;
+        let p = $p;
+        match $form {
+            "bv" => Some((x $op p).out()),
+            "rv" => Some((&x $op p).out()),
+            "bvr" => Some((x $op &p).out()),
+            "rvr" => Some((&x $op &p).out()),
+            "pb" => Some((p $op x).out()),
+            "pr" => Some((p $op &x).out()),
+            "rpb" => Some((&p $op x).out()),
+            "rpr" => Some((&p $op &x).out()),
+            "as" => { let mut y = x; y $opa p; Some(y.out()) }
+            "asr" => { let mut y = x; y $opa &p; Some(y.out()) }
+            _ => None,
         }
-        "iand_pu" | "ior_pu" | "ixor_pu" => {
-            let ty = a[0];
-            let x = ibig(a[1]);
-            let pv = prim_u(ty, &ubig(a[2])).expect("primitive out of range");
-            with_unsigned!(ty, pv, |p| match op {
-                "iand_pu" => format!("ok {:x}", x & p),
-                "ior_pu" => format!("ok {}", hi(&(x | p))),
-                _ => format!("ok {}", hi(&(x ^ p))),
-            })
+    }};
+}
+macro_rules! prim_ops {
+    ($x:expr, $p:expr, $f:expr, $form:expr) => {
+        match $f {
+            "and" => prim_forms!($x, $p, $form, &, &=),
+            "or" => prim_forms!($x, $p, $form, |, |=),
+            "xor" => prim_forms!($x, $p, $form, ^, ^=),
+            _ => None,
         }
-        "iand_pi" | "ior_pi" | "ixor_pi" => {
-            let ty = a[0];
-            let x = ibig(a[1]);
+    };
+}
+
+/// `p<kind>.<f>.<form> ty x p`
+fn prim_op(kind: &str, f: &str, form: &str, a: &[&str]) -> Option<Out> {
+    let ty = a[0];
+    match kind {
+        "pu" => {
+            let pv = prim_u(ty, &ubig(a[2])).expect("primitive out of range");
+            with_unsigned!(ty, pv, |p| prim_ops!(ubig(a[1]), p, f, form))
+        }
+        "pi" => {
+            let pv = prim_u(ty, &ubig(a[2])).expect("primitive out of range");
+            with_unsigned!(ty, pv, |p| prim_ops!(ibig(a[1]), p, f, form))
+        }
+        "ps" => {
             let pv = prim_i(ty, &ibig(a[2])).expect("primitive out of range");
-            with_signed!(ty, pv, |p| match op {
-                "iand_pi" => format!("ok {}", hi(&(x & p))),
-                "ior_pi" => format!("ok {}", hi(&(x | p))),
-                _ => format!("ok {}", hi(&(x ^ p))),
-            })
+            with_signed!(ty, pv, |p| prim_ops!(ibig(a[1]), p, f, form))
         }
-        // shifts
-        "shl" => format!("ok {}", hi(&(ibig(a[0]) << usz(a[1])))),
-        "shr" => format!("ok {}", hi(&(ibig(a[0]) >> usz(a[1])))),
-        "shl_r" => format!("ok {}", hi(&(&ibig(a[0]) << usz(a[1])))),
-        "shr_r" => format!("ok {}", hi(&(&ibig(a[0]) >> usz(a[1])))),
-        "ushl" => format!("ok {}", hu(&(ubig(a[0]) << usz(a[1])))),
-        "ushr" => format!("ok {}", hu(&(ubig(a[0]) >> usz(a[1])))),
-        "ushl_r" => format!("ok {}", hu(&(&ubig(a[0]) << usz(a[1])))),
-        "ushr_r" => format!("ok {}", hu(&(&ubig(a[0]) >> usz(a[1])))),
-        "shr_assign" => {
-            let mut x = ibig(a[0]);
-            x >>= usz(a[1]);
-            format!("ok {}", hi(&x))
+        _ => None,
+    }
+}
+
+/// the four ownership arms of a binary operator and its two Assign forms
+macro_rules! own_forms {
+    ($sfx:expr, $x:expr, $y:expr, $op:tt) => {
+        match $sfx {
+            "" => Some(($x $op $y).out()),
+            "_vr" => Some(($x $op &$y).out()),
+            "_rv" => Some((&$x $op $y).out()),
+            "_rr" => Some((&$x $op &$y).out()),
+            _ => None,
         }
-        "ushl_assign" => {
-            let mut x = ubig(a[0]);
-            x <<= usz(a[1]);
-            format!("ok {}", hu(&x))
+    };
+}
+macro_rules! assign_forms {
+    ($sfx:expr, $x:expr, $y:expr, $opa:tt) => {
+        match $sfx {
+            "_as" => { let mut x = $x; x $opa $y; Some(x.out()) }
+            "_asr" => { let mut x = $x; x $opa &$y; Some(x.out()) }
+            _ => None,
         }
+    };
+}
+macro_rules! bin_forms {
+    ($sfx:expr, $x:expr, $y:expr, $op:tt, $opa:tt) => {
+        if $sfx.starts_with("_as") { assign_forms!($sfx, $x, $y, $opa) } else { own_forms!($sfx, $x, $y, $op) }
+    };
+}
+
+fn split_suffix<'a>(op: &'a str) -> (&'a str, &'a str) {
+    for s in ["_vr", "_rv", "_rr", "_asr", "_as"] {
+        if let Some(b) = op.strip_suffix(s) {
+            return (b, &op[b.len()..]);
+        }
+    }
+    (op, "")
+}
+
+/// every operation whose result is a UBig / IBig / primitive value
+fn big_op(op: &str, a: &[&str]) -> Option<Out> {
+    if op.starts_with("pu.") || op.starts_with("pi.") || op.starts_with("ps.") {
+        let parts: Vec<&str> = op.split('.').collect();
+        if parts.len() != 3 {
+            return None;
+        }
+        return prim_op(parts[0], parts[1], parts[2], a);
+    }
+    let (base, sfx) = split_suffix(op);
+    match base {
+        // IBig x IBig
+        "and" => bin_forms!(sfx, ibig(a[0]), ibig(a[1]), &, &=),
+        "or" => bin_forms!(sfx, ibig(a[0]), ibig(a[1]), |, |=),
+        "xor" => bin_forms!(sfx, ibig(a[0]), ibig(a[1]), ^, ^=),
+        // UBig x UBig
+        "uand" => bin_forms!(sfx, ubig(a[0]), ubig(a[1]), &, &=),
+        "uor" => bin_forms!(sfx, ubig(a[0]), ubig(a[1]), |, |=),
+        "uxor" => bin_forms!(sfx, ubig(a[0]), ubig(a[1]), ^, ^=),
+        // mixed UBig / IBig (UBig |= IBig and UBig ^= IBig do not exist: the result is signed)
+        "and_ui" => bin_forms!(sfx, ubig(a[0]), ibig(a[1]), &, &=),
+        "and_iu" => bin_forms!(sfx, ibig(a[0]), ubig(a[1]), &, &=),
+        "or_ui" => own_forms!(sfx, ubig(a[0]), ibig(a[1]), |),
+        "or_iu" => bin_forms!(sfx, ibig(a[0]), ubig(a[1]), |, |=),
+        "xor_ui" => own_forms!(sfx, ubig(a[0]), ibig(a[1]), ^),
+        "xor_iu" => bin_forms!(sfx, ibig(a[0]), ubig(a[1]), ^, ^=),
+        _ => big_op2(op, a),
+    }
+}
+
+fn big_op2(op: &str, a: &[&str]) -> Option<Out> {
+    Some(match op {
+        "not" => (!ibig(a[0])).out(),
+        "not_r" => (!&ibig(a[0])).out(),
+        // old names of three primitive forms
+        "uand_p" | "uor_p" | "uxor_p" => return prim_op("pu", &op[1..op.len() - 2], "bv", a),
+        "iand_pu" | "ior_pu" | "ixor_pu" => return prim_op("pi", &op[1..op.len() - 3], "bv", a),
+        "iand_pi" | "ior_pi" | "ixor_pi" => return prim_op("ps", &op[1..op.len() - 3], "bv", a),
+        // shifts: by value, by reference, `&usize` counts (impl_shifts), Assign forms
+        "shl" => (ibig(a[0]) << usz(a[1])).out(),
+        "shr" => (ibig(a[0]) >> usz(a[1])).out(),
+        "shl_r" => (&ibig(a[0]) << usz(a[1])).out(),
+        "shr_r" => (&ibig(a[0]) >> usz(a[1])).out(),
+        "shl_pr" => (ibig(a[0]) << &usz(a[1])).out(),
+        "shr_pr" => (ibig(a[0]) >> &usz(a[1])).out(),
+        "shl_rpr" => (&ibig(a[0]) << &usz(a[1])).out(),
+        "shr_rpr" => (&ibig(a[0]) >> &usz(a[1])).out(),
+        "ushl" => (ubig(a[0]) << usz(a[1])).out(),
+        "ushr" => (ubig(a[0]) >> usz(a[1])).out(),
+        "ushl_r" => (&ubig(a[0]) << usz(a[1])).out(),
+        "ushr_r" => (&ubig(a[0]) >> usz(a[1])).out(),
+        "ushl_pr" => (ubig(a[0]) << &usz(a[1])).out(),
+        "ushr_pr" => (ubig(a[0]) >> &usz(a[1])).out(),
+        "ushl_rpr" => (&ubig(a[0]) << &usz(a[1])).out(),
+        "ushr_rpr" => (&ubig(a[0]) >> &usz(a[1])).out(),
+        "shl_assign" => { let mut x = ibig(a[0]); x <<= usz(a[1]); x.out() }
+        "shr_assign" => { let mut x = ibig(a[0]); x >>= usz(a[1]); x.out() }
+        "shl_assign_pr" => { let mut x = ibig(a[0]); x <<= &usz(a[1]); x.out() }
+        "shr_assign_pr" => { let mut x = ibig(a[0]); x >>= &usz(a[1]); x.out() }
+        "ushl_assign" => { let mut x = ubig(a[0]); x <<= usz(a[1]); x.out() }
+        "ushr_assign" => { let mut x = ubig(a[0]); x >>= usz(a[1]); x.out() }
+        "ushl_assign_pr" => { let mut x = ubig(a[0]); x <<= &usz(a[1]); x.out() }
+        "ushr_assign_pr" => { let mut x = ubig(a[0]); x >>= &usz(a[1]); x.out() }
+        "set_bit" => { let mut x = ubig(a[0]); x.set_bit(usz(a[1])); x.out() }
+        "clear_bit" => { let mut x = ubig(a[0]); x.clear_bit(usz(a[1])); x.out() }
+        "clear_high_bits" => { let mut x = ubig(a[0]); x.clear_high_bits(usz(a[1])); x.out() }
+        "next_pow2" => ubig(a[0]).next_power_of_two().out(),
+        _ => return None,
+    })
+}
+
+fn layout_u(x: &UBig) -> String {
+    let (cap, len, inline) = vh::repr_layout_ubig(x);
+    format!("L{}:{}:{:x}:{:x}", vh::WORD_BITS, inline as u8, len, cap.unsigned_abs())
+}
+fn layout_i(x: &IBig) -> String {
+    let (cap, len, inline) = vh::repr_layout_ibig(x);
+    format!("L{}:{}:{:x}:{:x}", vh::WORD_BITS, inline as u8, len, cap.unsigned_abs())
+}
+
+fn run(op: &str, a: &[&str]) -> String {
+    let (lay, op) = match op.strip_prefix("lay.") {
+        Some(rest) => (true, rest),
+        None => (false, op),
+    };
+    if let Some(out) = big_op(op, a) {
+        return match out {
+            Out::U(x) => if lay { format!("ok {} {}", hu(&x), layout_u(&x)) } else { format!("ok {}", hu(&x)) },
+            Out::I(x) => if lay { format!("ok {} {}", hi(&x), layout_i(&x)) } else { format!("ok {}", hi(&x)) },
+            Out::P(p) => if lay { format!("ok {:x} L{}:p", p, vh::WORD_BITS) } else { format!("ok {:x}", p) },
+        };
+    }
+    match op {
         // bit tests
         "bit" => format!("ok {}", ibig(a[0]).bit(usz(a[1])) as u8),
         "ubit" => format!("ok {}", ubig(a[0]).bit(usz(a[1])) as u8),
         "bit_len" => format!("ok {:x}", ibig(a[0]).bit_len()),
         "ubit_len" => format!("ok {:x}", ubig(a[0]).bit_len()),
-        "set_bit" => {
-            let mut x = ubig(a[0]);
-            x.set_bit(usz(a[1]));
-            format!("ok {}", hu(&x))
-        }
-        "clear_bit" => {
-            let mut x = ubig(a[0]);
-            x.clear_bit(usz(a[1]));
-            format!("ok {}", hu(&x))
-        }
         "utz" => format!("ok {}", hopt(ubig(a[0]).trailing_zeros())),
         "uto" => format!("ok {}", hopt(ubig(a[0]).trailing_ones())),
         "tz" => format!("ok {}", hopt(ibig(a[0]).trailing_zeros())),
@@ -170,21 +280,23 @@ fn run(op: &str, a: &[&str]) -> String {
         "count_zeros" => format!("ok {}", hopt(ubig(a[0]).count_zeros())),
         "split_bits" => {
             let (lo, hi_) = ubig(a[0]).split_bits(usz(a[1]));
-            format!("ok {} {}", hu(&lo), hu(&hi_))
-        }
-        "clear_high_bits" => {
-            let mut x = ubig(a[0]);
-            x.clear_high_bits(usz(a[1]));
-            format!("ok {}", hu(&x))
+            if lay {
+                format!("ok {} {} {} {}", hu(&lo), hu(&hi_), layout_u(&lo), layout_u(&hi_))
+            } else {
+                format!("ok {} {}", hu(&lo), hu(&hi_))
+            }
         }
         "is_pow2" => format!("ok {}", ubig(a[0]).is_power_of_two() as u8),
-        "next_pow2" => format!("ok {}", hu(&ubig(a[0]).next_power_of_two())),
         "ones" => {
             let x = UBig::ones(usz(a[0]));
             // the value must also behave like the same number built by arithmetic
             let y = (UBig::ONE << usz(a[0])) - UBig::ONE;
             let consistent = x == y && x.cmp(&y) == core::cmp::Ordering::Equal && &x + UBig::ONE == &y + UBig::ONE;
-            format!("ok {} {}", hu(&x), consistent as u8)
+            if lay {
+                format!("ok {} {} {}", hu(&x), consistent as u8, layout_u(&x))
+            } else {
+                format!("ok {} {}", hu(&x), consistent as u8)
+            }
         }
         _ => format!("unknown-op {}", op),
     }
